@@ -14,6 +14,7 @@ import NgVerif.Model.Scales
 import NgVerif.Model.FileStore
 import NgVerif.Model.Transform
 import NgVerif.Model.Mesh
+import NgVerif.Model.Slices
 /-
   ngdriver: line protocol. One request per line on stdin (space-separated tokens),
   one reply per line on stdout. Unknown / malformed requests answer `bad-request`.
@@ -409,6 +410,14 @@ def handle (toks : List String) : String :=
     match parseNat label with
     | some l => Mesh.linkName dir l (nc == "1")
     | none => "bad-request"
+  | ["slices-map", code, n] =>
+    match parseList parseNat n, Slices.perm code.toList, Slices.inv code.toList with
+    | some [nc, nr, ns], some p, some sg =>
+      if !Slices.validCode code.toList then "invalid-code" else
+      let coords := (List.range ns).flatMap fun s => (List.range nr).flatMap fun r =>
+        (List.range nc).map fun c => Slices.outCoord p sg [nc, nr, ns] [c, r, s]
+      ",".intercalate (coords.map fun o => ".".intercalate (o.map toString))
+    | _, _, _ => "bad-request"
   | _ => "bad-request"
 
 partial def loop (h : IO.FS.Stream) (out : IO.FS.Stream) : IO Unit := do
